@@ -359,7 +359,7 @@ func getSidecarIngressPortList(node *model.Proxy) sets.Set[int] {
 	sidecarScope := node.SidecarScope
 	ingressPortListSet := sets.New[int]()
 	for _, ingressListener := range sidecarScope.Sidecar.Ingress {
-		ingressPortListSet.Insert(int(ingressListener.Port.Number))
+		ingressPortListSet.Insert(int(ingressListener.GetPort().GetNumber()))
 	}
 	return ingressPortListSet
 }
@@ -449,6 +449,10 @@ func (lb *ListenerBuilder) buildInboundChainConfigs() []inboundChainConfig {
 		}
 
 		for _, i := range lb.node.SidecarScope.Sidecar.Ingress {
+			if i.GetPort() == nil {
+				// not possible for a validated Sidecar; there is nothing to listen on
+				continue
+			}
 			port := model.ServiceInstancePort{
 				ServicePort: &model.Port{
 					Name:     i.Port.Name,
